@@ -43,7 +43,7 @@ RECURSIVE SsaTableFrom(_, _, _)
 SsaTableFrom(styles, order, acc) ==
   IF order = <<>> THEN acc
   ELSE LET st == styles[Head(order)] IN
-       SsaTableFrom(styles, Tail(order), [tbl |-> (st.id :> st) @@ [n \in DOMAIN acc.tbl \ {st.id} |-> acc.tbl[n]], names |-> Append(acc.names, st.id)])
+       SsaTableFrom(styles, Tail(order), [tbl |-> (st.id :> st) @@ [n \in DOMAIN acc.tbl \ {st.id} |-> acc.tbl[n]], names |-> IF SORTED = "keys" /\ st.id \in DOMAIN acc.tbl THEN acc.names ELSE Append(acc.names, st.id)])   \* current tree: a name is listed once
 SsaTable(styles, pi) == SsaTableFrom(styles, Visit(styles, pi), [tbl |-> <<>>, names |-> <<>>])
 \* the names in the order the Format line and the Style lines follow
 SsaNames(styles, pi) == LET t == SsaTable(styles, pi) IN IF SORTED = "none" THEN t.names ELSE SortSeq(t.names, <)
@@ -71,6 +71,8 @@ Spec == Init /\ [][Next]_vars
 OrderIndependent == /\ SsaFormat(styles, pi1) = SsaFormat(styles, pi2)
                     /\ SsaRows(styles, pi1) = SsaRows(styles, pi2)
                     /\ VttStyle(styles, pi1) = VttStyle(styles, pi2)
+\* current tree: one Style line per name (what the reader makes of the file is then written back unchanged)
+OneRowPerName == SORTED = "keys" => \A p \in {pi1, pi2} : \A j, k \in DOMAIN SsaRows(styles, p) : j # k => SsaRows(styles, p)[j][1] # SsaRows(styles, p)[k][1]
 \* the first repair's guarantee: with distinct IDs sorting the names is enough
 DistinctIds == \A j, k \in DOMAIN styles : j # k => styles[j].id # styles[k].id
 OrderIndependentWhenDistinct == DistinctIds => OrderIndependent
